@@ -387,12 +387,12 @@ func c10Messages(c *ctx) {
 		"(*" + mod + "/crypto/dlnproof.Proof).Serialize":  mod + "/crypto/dlnproof.UnmarshalDLNProof",
 	}
 	partsOf := map[string]int64{
-		mod + "/crypto/mta.RangeProofAliceFromBytes":   iterConst(c, "crypto/mta", "RangeProofAliceBytesParts"),
-		mod + "/crypto/mta.ProofBobFromBytes":          iterConst(c, "crypto/mta", "ProofBobBytesParts"),
-		mod + "/crypto/mta.ProofBobWCFromBytes":        iterConst(c, "crypto/mta", "ProofBobWCBytesParts"),
-		mod + "/crypto/facproof.NewProofFromBytes":     iterConst(c, "crypto/facproof", "ProofFacBytesParts"),
-		mod + "/crypto/modproof.NewProofFromBytes":     iterConst(c, "crypto/modproof", "ProofModBytesParts"),
-		mod + "/crypto/dlnproof.UnmarshalDLNProof":     2 + 2*iterConst(c, "crypto/dlnproof", "Iterations"),
+		mod + "/crypto/mta.RangeProofAliceFromBytes": iterConst(c, "crypto/mta", "RangeProofAliceBytesParts"),
+		mod + "/crypto/mta.ProofBobFromBytes":        iterConst(c, "crypto/mta", "ProofBobBytesParts"),
+		mod + "/crypto/mta.ProofBobWCFromBytes":      iterConst(c, "crypto/mta", "ProofBobWCBytesParts"),
+		mod + "/crypto/facproof.NewProofFromBytes":   iterConst(c, "crypto/facproof", "ProofFacBytesParts"),
+		mod + "/crypto/modproof.NewProofFromBytes":   iterConst(c, "crypto/modproof", "ProofModBytesParts"),
+		mod + "/crypto/dlnproof.UnmarshalDLNProof":   2 + 2*iterConst(c, "crypto/dlnproof", "Iterations"),
 	}
 	n := 0
 	for _, rel := range protoRels {
